@@ -94,6 +94,15 @@ fn string_strategy() -> impl proptest::strategy::Strategy<Value = String> {
 }
 
 pub fn run(rep: &mut Report) {
+    rep.run_enum(
+        "scale-sentences",
+        "deterministic sentences of 65,535 / 65,536 / 65,537 / 70,000 / 131,080 characters, one \
+token of 70,000 characters, 70,000 one-character tokens, 255 / 256 / 300 tag columns, a tag of \
+70,000 characters: same round trip",
+        false,
+        gen::scale_sentences(2, false).into_iter(),
+        |r: &RefSentence| roundtrip(r).map(|mut i| { i.nontrivial = true; i }),
+    );
     let n = rep.n(150000, 20000000);
     rep.run_prop(
         "write-parse",
